@@ -62,7 +62,7 @@ func (x *c09World) Enabled() []bfs.Op {
 	ops = append(ops, bfs.Op{Name: "List"}, bfs.Op{Name: "Signers"})
 	o("Add", "y.touch", "K1", "y.nonce", "y.inagent", "n.missing", "n.free", "y.default", "n.inconsistent", "n.empty", "y.tlsudo", "y.headless", "n.ver2", "n.noprins", "n.nohw", "y.ws.both")
 	o("AddHardCert", "h1", "y.touch", "h2")
-	o("Sign", "y.touch", "K1", "n.missing", "h1", "y.nonce", "n.free", "y.inagent")
+	o("Sign", "y.touch", "K1", "n.missing", "h1", "y.nonce", "n.free", "y.inagent", "y.ff") // (y.ff enters only behind the shim's back)
 	o("Remove", "y.touch", "K1", "h1", "n.free")
 	ops = append(ops, bfs.Op{Name: "RemoveAll"})
 	o("UAdd", "y.ff", "y.sudoinagent", "y.ws.trail")
@@ -249,7 +249,7 @@ func checkC09(c *ev.Ctx) {
 			c.Violation("C09:harness:fixture", "near-miss fixture "+n+" decodes as a YSSHCA KeyID", nil)
 		}
 	}
-	c.Rule("E1 BFS, two real shims (no-upstream on/off) driven in lock-step over identical underlying agents: Add(15: YSSHCA KeyIDs of every type, one surrounded by JSON whitespace (two more such certificates enter behind the shim's back and as initial content), near misses (three different missing fields, version 2, inconsistent), free text, empty, plain key), AddHardCert(3, one equal to an underlying YSSHCA certificate), Remove(4), RemoveAll, List, Signers, Sign(7), certificates added behind the shim's back; roots = all 16 subsets of a 4-identity generating set as initial contents, plus 2 whose underlying agent starts with expired certificates in front of plain keys and YSSHCA certificates, plus 2 with YSSHCA certificates over a DSA key / a software security key, plus 8 used servers (a pre-history of add + listing applied after construction); oracle: absolute multiset formulas against ground truth and the reflected memory table in both modes. non-trivial = listing with >=1 hidden certificate, or sign/remove naming a hidden certificate; distinct by (operation, underlying set, memory set)")
+	c.Rule("E1 BFS, two real shims (no-upstream on/off) driven in lock-step over identical underlying agents: Add(15: YSSHCA KeyIDs of every type, one surrounded by JSON whitespace (two more such certificates enter behind the shim's back and as initial content), near misses (three different missing fields, version 2, inconsistent), free text, empty, plain key), AddHardCert(3, one equal to an underlying YSSHCA certificate), Remove(4), RemoveAll, List, Signers, Sign(8, one of them a certificate that enters only behind the shim's back, so it may be signed with before any listing saw it), certificates added behind the shim's back; roots = all 16 subsets of a 4-identity generating set as initial contents, plus 2 whose underlying agent starts with expired certificates in front of plain keys and YSSHCA certificates, plus 2 with YSSHCA certificates over a DSA key / a software security key, plus 8 used servers (a pre-history of add + listing applied after construction); oracle: absolute multiset formulas against ground truth and the reflected memory table in both modes. non-trivial = listing with >=1 hidden certificate, or sign/remove naming a hidden certificate; distinct by (operation, underlying set, memory set)")
 	c.Assume("Y(x) is the property's own definition: keyid.Unmarshal accepts x.KeyId (evaluated once per fixture)", "both worlds are built from the same fixtures")
 	gen := []string{"K1", "y.touch", "n.missing", "y.inagent"}
 	var roots []string
